@@ -2,7 +2,7 @@
     Model: FV.Sched.  Only statements here; proofs in FVP.Sched_proofs. *)
 From Coq Require Import List ZArith Bool.
 From FV Require Import Base Sched.
-From FVP Require Import Adapters_proofs Sched_proofs.
+From FVP Require Import Adapters_proofs Sched_proofs Confluence_proofs Termination_proofs.
 Import ListNotations.
 Open Scope Z_scope.
 
@@ -49,10 +49,30 @@ Proof.
   destruct o; auto; congruence.
 Qed.
 
-(** Full termination statement (an explicit fuel bound under which [OFuel] is impossible) is not proved yet. *)
-Definition C03_terminates_full : Prop :=
-  forall cs endt, wf cs ->
+(** Termination: for every composition whose links carry pass-through adapters, non-negative fixed delays and
+    buffering adapters and whose pull-based components form no cycle among themselves ([term_ok], with a rank
+    function as witness), and for every end time, there is an explicit amount of fuel [F] beyond which the run
+    never stops for lack of fuel — neither in the recursion of the driver, nor inside a pull, nor in the loop:
+    it returns after finitely many updates (all times stay below an explicit bound, each update consumes at
+    least one microsecond of the remaining distance). *)
+Theorem C03_terminates :
+  forall cs rank endt, term_ok cs rank ->
     exists F, forall fuel o st acc, (F <= fuel)%nat -> run fuel cs endt = (o, st, acc) -> o <> OFuel.
+Proof. exact run_terminates. Qed.
+
+(** Hence such a run ends normally — with every component at or beyond the end time — or with a
+    circular-coupling error. *)
+Theorem C03_terminates_normally_or_circular :
+  forall cs rank endt, term_ok cs rank ->
+    exists F, forall fuel o st acc, (F <= fuel)%nat -> run fuel cs endt = (o, st, acc) ->
+      (o = OOk /\ forall c, is_time cs c = true -> endt <= s_time st c) \/ o = OCirc.
+Proof.
+  intros cs rank endt T. destruct (run_terminates cs rank endt T) as [F HF]. exists F.
+  intros fuel o st acc Hf H. pose proof (HF fuel o st acc Hf H) as NF.
+  destruct (run_good cs endt fuel o st acc (to_wf cs rank T) H) as [G1 G2].
+  destruct o; try congruence; [left|right; reflexivity].
+  split; [reflexivity|]. intros c Tc. eapply run_loop_reaches_end; eauto.
+Qed.
 
 Definition ex3 : composition :=
   [ mkC (KTime 0 [3; 2] true) 0 [ mkIn (1, 0)%nat [ABuf; AFixed 4]; mkIn (1, 0)%nat [AToPull 2 0] ];
@@ -64,8 +84,31 @@ Example C03_nonvacuous :
   length (run_states 100 ex3 12 (init_state ex3) []) = 11%nat.
 Proof. split; [apply wf_b_sound; vm_compute; reflexivity|]. vm_compute. auto. Qed.
 
+Definition ex3t : composition :=
+  [ mkC (KTime 0 [3; 2] true) 0 [ mkIn (1, 0)%nat [ABuf; AFixed 4]; mkIn (2, 0)%nat [APass] ];
+    mkC (KTime 1 [2] false) 1 [];
+    mkC KPull 1 [ mkIn (1, 0)%nat [AFixed 1] ] ].
+
+Example C03_terminates_nonvacuous : term_ok ex3t (fun c => match c with 2%nat => 1%nat | _ => 0%nat end).
+Proof.
+  split.
+  - apply wf_b_sound; vm_compute; reflexivity.
+  - intros c k inp Hk. destruct c as [|[|[|c]]]; simpl in Hk;
+      repeat (destruct k as [|k]; simpl in Hk; [inversion Hk; reflexivity|]); try (destruct k; discriminate).
+    unfold getc in Hk. destruct c; simpl in Hk; destruct k; discriminate.
+  - intros c k inp Hk Tc Ts. exfalso.
+    destruct c as [|[|[|c]]].
+    + vm_compute in Tc; discriminate.
+    + vm_compute in Tc; discriminate.
+    + destruct k as [|k]; simpl in Hk; [inversion Hk; subst; vm_compute in Ts; discriminate|destruct k; discriminate].
+    + unfold getc in Hk. destruct c; simpl in Hk; destruct k; discriminate.
+  - intros c. destruct c as [|[|[|c]]]; simpl; Lia.lia.
+Qed.
+
 Print Assumptions C03_reaches_end.
 Print Assumptions C03_monotone.
 Print Assumptions C03_no_late_update.
 Print Assumptions C03_first_update_not_late.
 Print Assumptions C03_outcome.
+Print Assumptions C03_terminates.
+Print Assumptions C03_terminates_normally_or_circular.
